@@ -89,3 +89,34 @@ func vC05Save(ss *vSession, succeed bool) {
 		ss.reacked[vb] = false
 	}
 }
+
+// H_C05_race: an acknowledgement for vBucket 1 lands at an arbitrary point
+// relative to an in-flight save (before the dump, between dump and store call,
+// during the store call, after it returned, before/after the dirty marks are
+// reset). After a quiescent tail of two further successful saves the durable
+// checkpoint of every vBucket must equal its tracked position.
+func H_C05_race() {
+	sharedFields("anyDirtyOffset", "dirtyOffsets")
+	ss := vNewSession()
+	ss.deliverDoc(0, 0, true)  // vBucket 0: settled before the save
+	ss.deliverDoc(1, 0, false) // vBucket 1: delivered, acknowledgement still to come
+	ss.fm.onSave = func() { yield() } // the store call takes time
+	spawnEnv(func() { ss.s.checkpoint.Save() })
+	spawnEnv(func() { ss.ackIdx(1) })
+	quiesce()
+	assert(ss.acked[1], "acknowledged")
+	// quiescent tail: no further acknowledgements, two more saves
+	ss.fm.onSave = nil
+	ss.s.checkpoint.Save()
+	ss.s.checkpoint.Save()
+	for vb := 0; vb < vNVB; vb++ {
+		doc, ok := ss.fm.store[uint16(vb)]
+		want := ss.tracked(vb)
+		if vb == 0 {
+			assert(ok && vDocIs(doc, want), "progress settled before the save is durable")
+		} else {
+			cover("raced")
+			assert(ok && vDocIs(doc, want), "an acknowledgement racing an in-flight save is stored by a later save")
+		}
+	}
+}
